@@ -53,7 +53,7 @@ def nested_state(draw):
     for i in range(n):
         d = draw(st.sampled_from(DIRS))
         ext = draw(st.sampled_from([".py", ".py", ".c", ".txt"]))
-        own = draw(st.sampled_from(["none", "none", "cop", "lic", "both", "stacked", "two-lic", "commuted"]))
+        own = draw(st.sampled_from(["none", "none", "cop", "lic", "both", "stacked", "two-lic", "commuted", "case-twins"]))
         p = f"{d}/f{i}{ext}" if d else f"f{i}{ext}"
         style = {".py": "python", ".c": "c", ".txt": "none"}[ext]
         cop = [f"SPDX-FileCopyrightText: 20{i:02d} Holder {i}"] if own in ("cop", "both", "two-lic") else []
@@ -61,6 +61,10 @@ def nested_state(draw):
         if own == "two-lic":
             a, b, c_ = draw(st.permutations(ids))[:3]
             lic = [f"{a} OR {b}", f"{b} OR {c_}", f"{c_} AND {a}"]
+        if own == "case-twins":
+            # two notices of one source that differ in capitalisation / spacing only: both are stated, in an order no hash seed decides
+            cop = [f"SPDX-FileCopyrightText: 20{i:02d} ACME Widgets {i} GmbH", f"SPDX-FileCopyrightText: 20{i:02d} Acme Widgets {i} GmbH", f"SPDX-FileCopyrightText: 20{i:02d} Acme  Widgets {i} GmbH"]
+            lic = [draw(st.sampled_from(ids))]
         if own == "commuted":
             # two tags that state one expression with the operands in different order (equal to the expression library): which spelling is
             # reported must not depend on the hash seed
